@@ -2,11 +2,13 @@ module verifharness
 
 go 1.26.8
 
-require github.com/plgd-dev/go-coap/v3 v3.0.0
+require (
+	github.com/pion/dtls/v3 v3.1.2
+	github.com/plgd-dev/go-coap/v3 v3.0.0
+)
 
 require (
 	github.com/dsnet/golib/memfile v1.0.0 // indirect
-	github.com/pion/dtls/v3 v3.1.2 // indirect
 	github.com/pion/logging v0.2.4 // indirect
 	github.com/pion/transport/v4 v4.0.1 // indirect
 	go.uber.org/atomic v1.11.0 // indirect
